@@ -14,9 +14,9 @@ from ..core import Ctx, Result, guarded
 
 ID = "C17"
 LEVEL = "exploration"
-RULE = ("Hypothesis RuleBasedStateMachine, n=1..5: rules set_value, unset_value, set_values (all / selected, distinct coalitions), "
+RULE = ("Hypothesis RuleBasedStateMachine, n=1..5: rules set_value, unset_value, set_values (all / selected distinct coalitions / the EMPTY subset), "
         "reveal_value / unreveal_value (only under their documented precondition), set_known_values (all / selected), "
-        "set_upper_bounds / set_lower_bounds (all / selected), set_upper_bound / set_lower_bound on unknown coalitions, copy "
+        "set_upper_bounds / set_lower_bounds (all / selected / empty subset), set_upper_bound / set_lower_bound on unknown coalitions, copy "
         "(then both sides keep being mutated), negation; values int/dyadic/float incl. negative and zero. Oracle: dictionary model "
         "coalition -> (known, lower, upper); after every rule every public getter (is_value_known, are_values_known, "
         "get_lower/upper_bound(s), get_interval(s), get_value(s), get_known_value(s), full) is compared with the model for all "
